@@ -359,8 +359,8 @@ Lemma hexmacro_refuted_l : exists s, zlen s < 64 /\ 300 * zlen s < snd (hex_macr
 Proof. exists [33; 51; 48; 48; 48; 59; 52; 49; 59]. vm_compute. split; reflexivity. Qed.
 
 (* ---- macro recursion ---------------------------------------------------------------------------------------------------------------------------- *)
-Lemma macro_self_diverges : forall fuel, macro_chars fuel [(1, [27; 91; 49; 42; 122])] 1 = None.
-Proof. induction fuel as [|k IH]; [reflexivity|]. cbn [macro_chars lookup Z.eqb Pos.eqb]. change (find_invokes [27; 91; 49; 42; 122]) with [1]. cbn [fold_left]. rewrite IH. reflexivity. Qed.
+Lemma macro_self_diverges : forall fuel, macro_chars_nolimit fuel [(1, [27; 91; 49; 42; 122])] 1 = None.
+Proof. induction fuel as [|k IH]; [reflexivity|]. cbn [macro_chars_nolimit lookup Z.eqb Pos.eqb]. change (find_invokes [27; 91; 49; 42; 122]) with [1]. cbn [fold_left]. rewrite IH. reflexivity. Qed.
 
 (* ---- sixel ------------------------------------------------------------------------------------------------------------------------------------------ *)
 Lemma repeat_data_t_fst : forall n s ch k, fst (repeat_data_t n s ch k) = Sixel.repeat_data n s ch.
